@@ -111,3 +111,39 @@ Definition iarith_sound (f : Z -> Z -> Z) (w n_in n_out : Z) (c : code) (entry :
   m (ap s' - 3) = rc + (if ifits w (f va vb) then n_in else n_out) /\
   m (ap s' - 2) = (iwrap w (f va vb)) mod P /\
   m (ap s' - 1) = (if ifits w (f va vb) then 0 else 1).
+
+(* downcast<A, B> through TryInto: (RangeCheck, A) -> (RangeCheck, Option<B>); v is the (signed) value,
+   the cell holds its felt; Some(v) = (0, v), None = (1, 0); [n_some]/[n_none] range-check cells *)
+Definition downcast_sound (la ha lb hb n_some n_none : Z) (c : code) (entry : Z) : Prop :=
+  forall (m : mem) (pb : Z) (s0 s' : st) (v : Z),
+  mem_canonical m -> pc s0 = pb + entry -> reaches m pb c 0 s0 s' ->
+  let rc := m (fp s0 - 4) in
+  la <= v <= ha -> m (fp s0 - 3) = v mod P -> rc + 3 < P -> rc_ok m rc (rc + 3) ->
+  fp s' = fp s0 /\
+  if (lb <=? v) && (v <=? hb)
+  then m (ap s' - 3) = rc + n_some /\ m (ap s' - 2) = 0 /\ m (ap s' - 1) = v mod P
+  else m (ap s' - 3) = rc + n_none /\ m (ap s' - 2) = 1 /\ m (ap s' - 1) = 0.
+
+(* *_try_from_felt252 (range_reduction.rs): (RangeCheck, felt252) -> (RangeCheck, Option<T>);
+   the felt a denotes a value of T = [lb, hb] iff a <= hb or (T signed and) a >= P + lb *)
+Definition felt_fits (lb hb a : Z) : bool := (a <=? hb) || ((lb <? 0) && (P + lb <=? a)).
+Definition tryfrom_sound (lb hb n_some n_none : Z) (c : code) (entry : Z) : Prop :=
+  forall (m : mem) (pb : Z) (s0 s' : st),
+  mem_canonical m -> pc s0 = pb + entry -> reaches m pb c 0 s0 s' ->
+  let rc := m (fp s0 - 4) in let a := m (fp s0 - 3) in
+  rc + 3 < P -> rc_ok m rc (rc + 3) ->
+  fp s' = fp s0 /\
+  if felt_fits lb hb a
+  then m (ap s' - 3) = rc + n_some /\ m (ap s' - 2) = 0 /\ m (ap s' - 1) = a
+  else m (ap s' - 3) = rc + n_none /\ m (ap s' - 2) = 1 /\ m (ap s' - 1) = 0.
+
+(* i*_diff: (RangeCheck, T, T) -> (RangeCheck, Result<U, U>): Ok(a - b) if a >= b else Err(a - b + 2^w) *)
+Definition idiff_sound (w : Z) (c : code) (entry : Z) : Prop :=
+  forall (m : mem) (pb : Z) (s0 s' : st) (va vb : Z),
+  mem_canonical m -> pc s0 = pb + entry -> reaches m pb c 0 s0 s' ->
+  let rc := m (fp s0 - 5) in
+  in_i w va -> in_i w vb -> m (fp s0 - 4) = va mod P -> m (fp s0 - 3) = vb mod P ->
+  rc + 1 < P -> rc_ok m rc (rc + 1) ->
+  fp s' = fp s0 /\ m (ap s' - 3) = rc + 1 /\
+  if vb <=? va then m (ap s' - 2) = 0 /\ m (ap s' - 1) = va - vb
+  else m (ap s' - 2) = 1 /\ m (ap s' - 1) = va - vb + 2 ^ w.
